@@ -88,12 +88,15 @@ def run_prologue(ctx):
                 continue
             if not any(x.get("k") == "call" and str(x.get("callee", "")).endswith("sase::advance_run_shared") for x in H.walk(lp["body"])):
                 continue
+            conds = []
             for x in H.walk(lp["body"]):
                 if x.get("k") == "if" and any(y.get("k") == "mcall" and y["method"] in ("swap_remove", "remove") for y in H.walk(x["then"])) \
                         and any(y.get("k") == "continue" for y in H.walk(x["then"])) and not any(y.get("k") == "match" for y in H.walk(x["then"])):
-                    found = x
-                    break
-            if found:
+                    conds.append(x)
+            if conds:
+                # several `if c { remove; continue }` in a row are one prologue: the run is dropped under c1 || c2 || ..
+                found = dict(conds[0])
+                found["cond"] = {"k": "tuple", "es": [c_["cond"] for c_ in conds], "sp": conds[0]["sp"], "exp": ""}
                 break
         if not found:
             ctx.violation("loop-prologue", name + ":present", "%s advances runs without first dropping timed-out / invalidated ones (no `if <cond> { remove; continue }` before advance_run_shared in the run loop)" % name, site=h["span"])
